@@ -2,12 +2,12 @@
 (* Bounded exhaustive space of abstract annotations (the feature cross        *)
 (* product of C01), the laws the reference layer must satisfy on it, and the  *)
 (* generator of (annotation, text) cases replayed into the real code.         *)
-EXTENDS ProFormaText, FiniteSetsExt, Json, IOUtils
+EXTENDS ParserMachine, FiniteSetsExt, Json, IOUtils
 CONSTANTS MaxLen,        \* residues per chain
           MaxMods        \* modifications placed in total
 
-VARIABLE A
-vars == <<A>>
+VARIABLES A, base, phase
+vars == <<A, base, phase>>
 
 Residues == {"P", "K"}
 Seqs == UNION { [1..n -> Residues] : n \in 1..MaxLen }
@@ -55,8 +55,13 @@ Valid(X) == /\ WellFormed(X)
             /\ \A k \in 1..Len(X.internal) : X.internal[k].i < NRes(X)
             /\ (X.intervals = <<>> => TRUE)
 
-Init == A \in { X \in AnnSpace : Valid(X) }
-Next == UNCHANGED A
+(* two steps (shape, then modification placements) so that TLC's workers share the evaluation of the laws *)
+Shapes == { <<seq, iv, z, ad>> : seq \in Seqs, iv \in IntervalShapes(MaxLen), z \in {0, 2, -1}, ad \in BOOLEAN }
+Init == /\ base \in { b \in Shapes : Valid(Build(b[1], {}, b[2], b[3], b[4])) }
+        /\ A = Build(base[1], {}, base[2], base[3], base[4]) /\ phase = 0
+Pick == /\ phase = 0 /\ phase' = 1 /\ UNCHANGED base
+        /\ A' \in { X \in { Build(base[1], ch, base[2], base[3], base[4]) : ch \in ModChoices } : Valid(X) }
+Next == Pick
 Spec == Init /\ [][Next]_vars
 
 (* ------------------------------ laws ----------------------------------- *)
@@ -78,6 +83,13 @@ LawPiecesConcat ==
     (A.intervals = <<>>) =>
         LET whole == FoldLeft(LAMBDA acc, p : Concat(acc, Piece(A, p)), Piece(A, 0), [ q \in 1..(n - 1) |-> q ])
         IN  Equal(whole, A)
+(* the parser machine inverts the writer: every spelling of A is accepted and denotes exactly A *)
+ParsesTo(t, X) == LET o == Outcome(t) IN o.cls = "accept" /\ Len(o.chains) = 1 /\ Diff(o.chains[1], X) = {} /\ o.links = <<>>
+LawParseInvertsWrite == /\ ParsesTo(Write(A, FALSE), A) /\ ParsesTo(WriteV(A, TRUE, FALSE), A) /\ ParsesTo(WriteV(A, TRUE, TRUE), A)
+(* and two chains joined by "+" or "//" come back as those two chains *)
+LawParseInvertsMulti == \A link \in BOOLEAN :
+                           LET o == Outcome(WriteMulti(<<A, A>>, <<link>>, FALSE, FALSE)) IN
+                           o.cls = "accept" /\ Len(o.chains) = 2 /\ Diff(o.chains[1], A) = {} /\ Diff(o.chains[2], A) = {} /\ o.links = <<link>>
 (* two different annotations never share a text (the notation is unambiguous on this space):           *)
 (* checked through the state graph - TLC's VIEW is the text, so a collision would lose states          *)
 TextView == Write(A, FALSE)
